@@ -5,6 +5,7 @@ import (
 	"crypto/elliptic"
 	"crypto/sha256"
 	"crypto/x509"
+	"crypto/x509/pkix"
 	"fmt"
 	"math/big"
 	"strings"
@@ -395,6 +396,9 @@ func c01Forgery(r *mc.Run, c *mc.Ctx, base *c01base, lv []int, nl int) {
 	bodySigForm := c.Choose("bodysigform", 5)
 	qeSigForm := c.Choose("qesigform", 5)
 	resize := c.Choose("resize", 6)
+	// which certificates of the carried chain bear the SGX extension (a mark of the PCK certificate's profile, not of
+	// its role: the QE report is signed by the chain's LEAF): leaf only / also the intermediate / also the root
+	sgxOn := c.Choose("sgx-extension-also-on", 3)
 	li := c.Free("level", nl)
 	id := "forge/" + c.ID() + world.LogTag()
 	if !r.Want(id) {
@@ -491,6 +495,16 @@ func c01Forgery(r *mc.Run, c *mc.Ctx, base *c01base, lv []int, nl int) {
 			p.QEReport[i] = 0x20
 		}
 		qeResign = true
+	}
+	if sgxOn != 0 {
+		ext := []pkix.Extension{{Id: world.OidSGX, Value: world.SGXExtension(w.Plat)}}
+		inter, root := pki.Inter, pki.Root
+		if sgxOn == 1 {
+			inter = world.MakeCert(world.CertSpec{CN: world.CNPlatform, IsCA: true, Key: pki.InterKey, MaxPathLen: -1, ExtraExts: ext}, pki.Root, pki.RootKey)
+		} else {
+			root = world.MakeCert(world.CertSpec{CN: world.CNRoot, IsCA: true, Key: pki.RootKey, MaxPathLen: 1, ExtraExts: ext}, nil, pki.RootKey)
+		}
+		p.Chain = world.PEM(pki.Leaf, inter, root)
 	}
 	signers := []*world.Key{pki.LeafKey, pki.InterKey, pki.RootKey, other, effAtt}
 	if qeResign || qeSigner != 0 {
